@@ -40,14 +40,17 @@ NOT_CARRIED = [
     "every baked room",
     "C05_partial: everything about the Nusselt branch (bounds, reciprocity of the two-sided kernel, invariance): "
     "nusselt_integration is not modelled, its outputs are data of the assembly model",
-    "C05_similarity for the code WITH its cut-off under general rotations and scalings is false (known finding "
-    "similarity_cutoff); proved: translation invariance with the cut-off, and equality with stokes_nocut when no "
-    "segment extent lies in (0, cut]",
-    "C05_similarity (b) for stokes_nocut under general linear isometries and under uniform scaling "
-    "(needs ln(s r) = ln s + ln r, sqrt(s^2 x) = s sqrt x and the closed-polygon sum of edge increments = 0): "
-    "and (c) the 48 signed axis permutations with the cut-off: not proved; full statements kept as a comment at "
-    "the end of coq/theories/Proofs/StokesSum.v; the harness compares the extracted stokes_nocut in both poses "
-    "whenever the implementation's values differ",
+    "C05_similarity is now PROVED for the Stokes branch (coq/theories/Proofs/StokesSimilarity.v): with cut-off 0 (the "
+    "code as repaired in /repo by cfd1b2b; before that the 1e-3 m cut-off made it false, former finding "
+    "similarity_cutoff) stokes_integration 0 = stokes_nocut for all patches (C05_similarity_cut0); stokes_nocut is "
+    "invariant under translations (C05_similarity_partial), under x -> M x + t for every M preserving inner products "
+    "(C05_similarity_isometry, C05_similarity_orthogonal) and under uniform scaling s > 0 with the area scaled by s*s "
+    "(C05_similarity_scaling: needs LnLaws ln(x y) = ln x + ln y, SqrtLaws, positive distance of the sampled "
+    "boundaries, pi <> 0, area <> 0); the 48 signed axis permutations keep the value for every cut-off "
+    "(C05_similarity_axis_permutation).  What remains outside the theorems: they are identities of exact "
+    "ordered-field arithmetic with uninterpreted ln / sqrt -- the float implementation is compared at rel 1e-6 "
+    "(contour sums cancel); and nothing is proved for a POSITIVE cut-off under general rotations / scalings (false); "
+    "the harness still compares the extracted stokes_nocut in both poses whenever the implementation's values differ",
 ]
 
 
